@@ -615,7 +615,18 @@ impl Obs {
                     };
                     let committer_signer = w.parties[info.committer].signer.clone();
                     let other_leaf = w.members().iter().map(|m| w.parties[*m].leaf()).find(|l| *l != w.parties[info.committer].leaf()).unwrap_or(0);
-                    let edits = [
+                    // another key package of the same joiner, published now: the commit did not add it
+                    let other_kp = guard(|| party.client.generate_key_package_message(Default::default(), Default::default(), Some(t))).ok().and_then(|m| m.to_bytes().ok()).and_then(|b| {
+                        let mut r = crate::refmodel::tls::Reader::new(&b);
+                        r.u16()?;
+                        r.u16()?;
+                        let kp = b[r.pos..].to_vec();
+                        r.u16()?;
+                        r.u16()?;
+                        let init = r.opaque()?.to_vec();
+                        Some((kp, init))
+                    });
+                    let mut edits = vec![
                         ("control", GroupInfoEdit::None, false),
                         ("group_info_signature_bit", GroupInfoEdit::SignatureBit(self.rng.below(512) as usize), true),
                         ("group_info_signer_index", GroupInfoEdit::SignerIndex(other_leaf), true),
@@ -623,6 +634,9 @@ impl Obs {
                         ("group_info_epoch_resigned", GroupInfoEdit::EpochResigned(committer_signer.clone()), true),
                         ("unrelated_path_secret_in_group_secrets", GroupInfoEdit::UnrelatedPathSecret, true),
                     ];
+                    if let Some((kp, init)) = other_kp {
+                        edits.push(("addressed_to_another_key_package_of_the_joiner", GroupInfoEdit::AddressedToOtherKeyPackage(kp, init), true));
+                    }
                     let mut control_ok = false;
                     for (name, edit, must_reject) in edits {
                         if must_reject && !control_ok {
